@@ -5,27 +5,45 @@ import (
 	"strings"
 )
 
+// hasDeclarationPrefix reports whether the trimmed line starts with prefix and the name that ends the
+// prefix is not continued by further identifier characters.
+func hasDeclarationPrefix(line string, prefix string) bool {
+	rest, found := strings.CutPrefix(strings.TrimSpace(line), prefix)
+	if !found {
+		return false
+	}
+
+	if rest == "" {
+		return true
+	}
+
+	next := rest[0]
+
+	return !(next == '_' || next == '-' || next == '.' || next == '/' ||
+		(next >= '0' && next <= '9') || (next >= 'a' && next <= 'z') || (next >= 'A' && next <= 'Z'))
+}
+
 func GetConditionLineNumber(conditionName string, lines []string) int {
 	return slices.IndexFunc(lines, func(line string) bool {
-		return strings.HasPrefix(strings.TrimSpace(line), "condition "+conditionName)
+		return hasDeclarationPrefix(line, "condition "+conditionName)
 	})
 }
 
 func GetTypeLineNumber(typeName string, lines []string) int {
 	return slices.IndexFunc(lines, func(line string) bool {
-		return strings.HasPrefix(strings.TrimSpace(line), "type "+typeName)
+		return hasDeclarationPrefix(line, "type "+typeName)
 	})
 }
 
 func GetExtendedTypeLineNumber(typeName string, lines []string) int {
 	return slices.IndexFunc(lines, func(line string) bool {
-		return strings.HasPrefix(strings.TrimSpace(line), "extend type "+typeName)
+		return hasDeclarationPrefix(line, "extend type "+typeName)
 	})
 }
 
 func GetRelationLineNumber(relation string, lines []string) int {
 	return slices.IndexFunc(lines, func(line string) bool {
-		return strings.HasPrefix(strings.TrimSpace(line), "define "+relation)
+		return hasDeclarationPrefix(line, "define "+relation)
 	})
 }
 
